@@ -262,14 +262,14 @@ func init() {
 						if isNullish(inputVal.DefaultValue) {
 							return nil, nil
 						}
-						astVal := astFromValue(inputVal.DefaultValue, inputVal)
+						astVal := astFromValue(inputVal.DefaultValue, inputVal.Type)
 						return printer.Print(astVal), nil
 					}
 					if inputVal, ok := p.Source.(*InputObjectField); ok {
 						if inputVal.DefaultValue == nil {
 							return nil, nil
 						}
-						astVal := astFromValue(inputVal.DefaultValue, inputVal)
+						astVal := astFromValue(inputVal.DefaultValue, inputVal.Type)
 						return printer.Print(astVal), nil
 					}
 					return nil, nil
@@ -746,8 +746,45 @@ func astFromValue(value interface{}, ttype Type) ast.Value {
 		return val
 	}
 
-	if valueVal.Type().Kind() == reflect.Map {
-		// TODO: implement astFromValue from Map to Value
+	// An enum's default is configured as its internal value; the literal is
+	// the value's name.
+	if enum, ok := ttype.(*Enum); ok {
+		if name, ok := enum.Serialize(value).(string); ok {
+			return ast.NewEnumValue(&ast.EnumValue{
+				Value: name,
+			})
+		}
+	}
+
+	// Convert a Golang map to a GraphQL input object literal, field by field
+	// (in name order).
+	if inputObj, ok := ttype.(*InputObject); ok {
+		if valueMap, ok := value.(map[string]interface{}); ok {
+			fieldDefs := inputObj.Fields()
+			fieldNames := make([]string, 0, len(valueMap))
+			for name := range valueMap {
+				fieldNames = append(fieldNames, name)
+			}
+			sort.Strings(fieldNames)
+			fields := []*ast.ObjectField{}
+			for _, name := range fieldNames {
+				fieldDef, known := fieldDefs[name]
+				if !known {
+					continue
+				}
+				fieldAST := astFromValue(valueMap[name], fieldDef.Type)
+				if fieldAST == nil {
+					continue
+				}
+				fields = append(fields, ast.NewObjectField(&ast.ObjectField{
+					Name:  ast.NewName(&ast.Name{Value: name}),
+					Value: fieldAST,
+				}))
+			}
+			return ast.NewObjectValue(&ast.ObjectValue{
+				Fields: fields,
+			})
+		}
 	}
 
 	if value, ok := value.(bool); ok {
